@@ -9,7 +9,7 @@ from vf.ref import coerce as C
 from vf import gqlfront
 
 META = {
-    "bounds": "schema X (vf/world.py) in 6 engine configurations (default/explicit resolvers, non-null layout, type resolvers, sequential coercion); 16 document templates, selection depth <= 4, lists of length 0..2, "
+    "bounds": "schema X (vf/world.py) in 8 engine configurations (default/explicit resolvers, non-null layout, type resolvers, sequential coercion); 16 document templates, selection depth <= 4, lists of length 0..2, "
               "<= 3 fragments; leaves: unbounded int / Optional[int] / Optional[bool] / opaque str (len <= 2)",
     "outside": "documents outside the template catalogue; list length > 2; Float leaves symbolic (C10); message wording",
     "explanation": "Oracle: vf/ref/execute.py (CollectFields/ExecuteSelectionSet/CompleteValue written from the spec text) run on the same symbolic values.",
@@ -22,8 +22,15 @@ ENGINES = {
     "tres": world.make_engine("c01_tres", 0, "univ", typeres=True),
     "plain_tres": world.make_engine("c01_ptres", 0, "plain", typeres=True),
     "seq": world.make_engine("c01_seq", 0, "univ", coerce_list_concurrently=False, coerce_parent_concurrently=False),
+    # mixes: explicit @Resolver fields keep parent_concurrently=True while default-resolved siblings are coerced sequentially
+    "plain_seq": world.make_engine("c01_pseq", 0, "plain", coerce_parent_concurrently=False),
 }
-MODELS = {"univ": world.model(0), "plain": world.model(0), "univ_nn": world.model(7), "tres": world.model(0), "plain_tres": world.model(0), "seq": world.model(0)}
+from tartiflette import Resolver as _R  # noqa: E402
+_R("Query.mid", schema_name="c01_ov", parent_concurrently=False)(world.universal)
+_R("Mid.n", schema_name="c01_ov", parent_concurrently=False)(world.universal)
+_R("Query.nn", schema_name="c01_ov", parent_concurrently=False)(world.universal)
+ENGINES["ov"] = world.make_engine("c01_ov", 0, "univ")
+MODELS = {"univ": world.model(0), "plain": world.model(0), "univ_nn": world.model(7), "tres": world.model(0), "plain_tres": world.model(0), "seq": world.model(0), "plain_seq": world.model(0), "ov": world.model(0)}
 
 TEMPLATES = {
     "T01": "{ n nn }",
@@ -146,17 +153,23 @@ def same_calls(log, ref, plain):
     exp = ref.calls
     if plain:
         exp = [c for c in exp if (c[1] + "." + c[2]) in world.LOGGED_PLAIN or (plain == "plain_tres" and (c[1], c[2]) == ("Query", "u"))]
-    if len(got) != len(exp):
-        return False
     bypath = {}
     for c in got:
         if c[0] in bypath:
             return False          # called twice for one response path
         bypath[c[0]] = c
+    exppaths = set(e[0] for e in exp)
+    for c in got:
+        if c[0] not in exppaths:
+            return False          # a resolver ran that the algorithm does not call
     pairs = []
     for e in exp:
         if e[0] not in bypath:
-            return False
+            # not called: only legitimate when a non-null failure propagated through an enclosing position and the engine
+            # abandoned the remaining siblings (the specification allows cancelling them)
+            if not any(len(q) < len(e[0]) and tuple(e[0][:len(q)]) == tuple(q) and any(len(c) > len(q) for c in causes) for q, causes in ref.nulled):
+                return False
+            continue
         pairs.append((bypath[e[0]], e))
     for g, e in pairs:
         if g[0] != e[0] or g[1] is not e[4] or g[3] is not CTX:
@@ -183,6 +196,8 @@ for t in TEMPLATES:
         kinds = ["univ", "plain", "univ_nn"]
     if t in ("T05", "T08", "T13", "T06"):
         kinds = kinds + ["seq"]
+    if t in ("T02", "T03", "T06", "T10", "T16"):
+        kinds = kinds + ["plain_seq", "ov"]
     for k in kinds:
         tns = [0, 1, 2] if t in ("T08", "T11", "T14") and k in ("univ", "plain") else [0]
         if t in ("T03", "T05", "T12") and k == "plain":
@@ -213,7 +228,7 @@ for sh_ in SHARDS:
     else:
         _split.append(sh_)
 SHARDS = _split
-QUICK = [i for i, s in enumerate(SHARDS) if (s["eng"] in ("univ",) and s["tn"] == 0) or (s["eng"] == "seq" and s["tmpl"] == "T05") or (s["tmpl"] in ("T08", "T14") and s.get("which") == 2 and s.get("nlen", 1) == 1)
+QUICK = [i for i, s in enumerate(SHARDS) if (s["eng"] in ("univ",) and s["tn"] == 0) or (s["eng"] == "seq" and s["tmpl"] == "T05") or (s["eng"] in ("plain_seq", "ov") and s["tmpl"] in ("T03", "T02")) or (s["tmpl"] in ("T08", "T14") and s.get("which") == 2 and s.get("nlen", 1) == 1)
          or (s["tmpl"] in ("T03", "T10", "T12") and s["eng"] == "plain" and s["tn"] == 0)]
 
 
@@ -223,7 +238,7 @@ QUICK = [i for i, s in enumerate(SHARDS) if (s["eng"] in ("univ",) and s["tn"] =
             symbolic=["n: Optional[int] (unbounded)", "m: int (unbounded)", "flag: Optional[bool]", "st: str (all strings)", "v: Optional[int]",
                       "s, i: bool via real variable coercion and the real @skip/@include hooks"],
             selectors=["t1,t2,t3: runtime type of node/u/nodes", "nlen: list length 0..2", "shard: template, engine kind, type-naming way, operation name"],
-            bounds="templates T01-T16 x engines {univ, plain, univ_nn, tres, plain_tres, seq} x 3 type-naming ways",
+            bounds="templates T01-T16 x engines {univ, plain, univ_nn, tres, plain_tres, seq, plain_seq, ov} x 3 type-naming ways",
             note="real Engine.execute vs reference executor: data incl. key order, error accounting, resolver call log")
 def c01_exec(s: bool, i: bool, t1: bool, t2: bool, t3: bool, n: Optional[int], m: int, flag: Optional[bool], st: str,
              v: Optional[int], nlen: int) -> bool:
@@ -255,4 +270,4 @@ def c01_exec(s: bool, i: bool, t1: bool, t2: bool, t3: bool, n: Optional[int], m
         return verdict(resp.get("data") is None and bool(resp.get("errors")) and not log)
     got = to_pairs(resp.get("data"))
     observe(("expected", exp, ref.errors))
-    return verdict(got == exp and errors_ok(resp, ref) and same_calls(log, ref, kind if kind.startswith("plain") else None))
+    return verdict(got == exp and errors_ok(resp, ref) and same_calls(log, ref, ("plain" if kind == "plain_seq" else kind) if kind.startswith("plain") else None))
